@@ -102,6 +102,12 @@ def run(tier, seed):
     rep.rule('WINDOW.forward', 'each bound of the configured energy-sum window reaches the engine on its own (a one-sided window is honoured)')
     from ..rules import window
     window.forward(rep, project.load('lib'), 'WINDOW.forward')
+    # the closure rules count `pair(E)` as E + 1.022 MeV and every other primitive as its argument: the primitives must emit exactly that
+    from . import c04 as _c04
+    rep.rule('BUDGET.primitive', 'at every call site with a literal energy, the kinetic energies an emission primitive hands to particle() add '
+             'up to its energy argument (the convention the cascade-closure summaries and the reference rely on; a primitive that '
+             'subtracts the pair threshold itself loses 1.022 MeV at every caller that still passes a kinetic energy)')
+    _c04._wrapper_energies(rep, _c04.generation_flows(ctx), budget_rule='BUDGET.primitive')
     # the level energy enters the budget as levelE / 1000.: an integer/integer quotient would truncate it to whole MeV
     from ..rules import intdiv
     lp = project.load('lib')
